@@ -128,7 +128,7 @@ structure Cfg where
 inductive GArg
   | none                                    -- `None`
   | ident (k : Key)                         -- an identifier (URIRef / BNode / str)
-  | view (k : Key)                          -- a `Graph` object on the same store
+  | view (k : Key)                          -- a `Graph` object on the same store, or a ConjunctiveGraph / Dataset object (any store): returned as is
   | foreign (k : Key) (ts : List Triple)    -- a `Graph` object of another store holding `ts`
   deriving Repr, DecidableEq
 
